@@ -119,7 +119,30 @@ def eff_system_execute(eng, env, pre):
                         'never resets a completed model')
 
 
+def eff_sched_ghost_init_dyn(eng, env, pre):
+    eff_sched_ghost_init(eng, env, pre)
+    eng.S.h[('g', 'removed')] = z3.K(I, z3.BoolVal(False))
+    eng.S.h[('g', 'added')] = z3.K(I, z3.BoolVal(False))
+
+
+def eff_system_execute_dyn(eng, env, pre):
+    """Dynamic view (C05): user code may also add / remove systems; removed / added only grow."""
+    eff_system_execute(eng, env, pre)
+    r = z3.Int('r')
+    for g in ('removed', 'added'):
+        old = eng.arr(('g', g), pre)
+        new = eng.fresh('g_' + g, old.sort())
+        eng.S.h[('g', g)] = new
+        eng.fact(z3.ForAll([r], z3.Implies(z3.Select(old, r), z3.Select(new, r))))
+    eng.used_assumption('System.execute (user code, dynamic view): may call add_system / remove_system on its own '
+                        "model's scheduler any number of times (op-sequence summary: the representation invariant "
+                        'holds afterwards, a system that stopped being registered is in `removed`, one that became '
+                        'registered is in `added`)')
+
+
 EFFECTS = {
+    'sched_ghost_init_dyn': eff_sched_ghost_init_dyn,
+    'system_execute_dyn': eff_system_execute_dyn,
     'sched_ghost_init': eff_sched_ghost_init,
     'system_execute': eff_system_execute,
 }
